@@ -6,7 +6,7 @@ State mirrors the private members one to one; `m_data` is a list of containers w
 `filePosition`, declared `uncompressedFileSize` and the actual vector (kept separate because the code
 keeps them separate).  Every public method is one critical section: a guard (the predicate of its
 `wait`) and a body.  The bodies follow the C++ loops statement by statement, including their quirks
-(non-sticky flags, a container appended at position 0 when the list is empty, `write(container)`
+(non-sticky flags, `write(container)`
 placing the container at the put position whatever the list holds).
 
 Outside the model: `std::streamsize` overflow (positions are `Int`).
@@ -103,7 +103,8 @@ def writeLoop : Nat → State → Bytes → State
     match containing s.data s.tellp with
     | none =>
       -- append a new container; it is used in this very iteration even if it does not hold tellp
-      let p : Int := match backEnd s.data with | some e => e | none => 0
+      -- (fix 2aa9853: an emptied buffer continues at the put position, not at 0)
+      let p : Int := match backEnd s.data with | some e => e | none => s.tellp
       let c : Cont := { pos := p, size := s.dlcs, data := zeros s.dlcs }
       let s1 := { s with data := s.data ++ [c] }
       let i := s.data.length
